@@ -91,3 +91,11 @@ def register(benign):
     benign("BN-sid-manual-parse", ["C08", "C01", "C17"], [
         ("_security_descriptor.py", "    sid_pattern = re.compile(r\"S-([0-9])-([0-9]+)(?:-[0-9]+){1,15}\")\n    sid_match = sid_pattern.fullmatch(sid)\n", "    _p = sid.split(\"-\")\n    sid_match = 4 <= len(_p) <= 18 and _p[0] == \"S\" and len(_p[1]) == 1 and all(x.isascii() and x.isdigit() for x in _p[1:])\n"),
     ], "SID strings parsed with split() instead of a regular expression")
+    benign("BN-conn-socket-object", ["C17", "C10", "C16", "C18", "C20", "C01", "C02", "C09", "C15", "C19"], [
+        ("_rpc/_client.py", "    sock = socket.create_connection(\n        (server, port),\n        timeout=connection_timeout,\n    )\n", "    sock = socket.socket(socket.AF_INET, socket.SOCK_STREAM)\n    sock.settimeout(connection_timeout)\n    sock.connect((server, port))\n"),
+    ], "the sync client builds a socket object and calls connect() itself")
+    benign("BN-conn-bound-at-import", ["C17", "C10", "C16", "C18", "C20", "C01", "C02", "C09", "C15", "C19"], [
+        ("_rpc/_client.py", "import socket\n", "import socket\nfrom asyncio import open_connection as _open_connection\nfrom socket import create_connection as _create_connection\n"),
+        ("_rpc/_client.py", "    sock = socket.create_connection(\n", "    sock = _create_connection(\n"),
+        ("_rpc/_client.py", "    conn_future = asyncio.open_connection(server, port=port)", "    conn_future = _open_connection(server, port=port)"),
+    ], "create_connection / open_connection imported by name when the module is loaded")
